@@ -135,6 +135,15 @@ def _update_allow(allow_set, value):
     return allow_set
 
 
+def _is_entry_name(name):
+    """
+    Whether a string can be the plain name of a directory entry (as opposed to
+    ".", "..", or a path leading elsewhere).
+    """
+    return name not in ("", ".", "..") and "/" not in name \
+        and os.sep not in name and "\0" not in name
+
+
 def _find_search_optimizations(filters):
     """
     Searches through all the filters, and creates white/blacklists of types and
@@ -165,30 +174,43 @@ def _find_search_optimizations(filters):
         if isinstance(filter_.value, str) == (filter_.op == "in"):
             continue
 
+        value = filter_.value
+        if filter_.op == "in":
+            # (a member which is not a string equals no type and no ID)
+            value = [v for v in value if isinstance(v, str)]
+
         if filter_.property == "type":
             if filter_.op in ("=", "in"):
-                allowed_types = _update_allow(allowed_types, filter_.value)
+                allowed_types = _update_allow(allowed_types, value)
             elif filter_.op == "!=":
-                prohibited_types.add(filter_.value)
+                prohibited_types.add(value)
 
         elif filter_.property == "id":
             if filter_.op == "=":
                 # An "allow" ID filter implies a type filter too, since IDs
                 # contain types within them.
-                allowed_ids = _update_allow(allowed_ids, filter_.value)
+                allowed_ids = _update_allow(allowed_ids, value)
                 allowed_types = _update_allow(
                     allowed_types,
-                    get_type_from_id(filter_.value),
+                    get_type_from_id(value),
                 )
             elif filter_.op == "!=":
-                prohibited_ids.add(filter_.value)
+                prohibited_ids.add(value)
             elif filter_.op == "in":
-                allowed_ids = _update_allow(allowed_ids, filter_.value)
+                allowed_ids = _update_allow(allowed_ids, value)
                 allowed_types = _update_allow(
                     allowed_types, (
-                        get_type_from_id(id_) for id_ in filter_.value
+                        get_type_from_id(id_) for id_ in value
                     ),
                 )
+
+    # The whitelists become names of directory entries: a value which is not
+    # the plain name of an entry (e.g. "..", or a path) names no type directory
+    # and no object, and must not lead the search out of its directory.
+    if allowed_types is not None:
+        allowed_types = set(filter(_is_entry_name, allowed_types))
+    if allowed_ids is not None:
+        allowed_ids = set(filter(_is_entry_name, allowed_ids))
 
     opt_types = AuthSet(allowed_types, prohibited_types)
     opt_ids = AuthSet(allowed_ids, prohibited_ids)
